@@ -141,14 +141,28 @@ pub fn arg_str(key: &str) -> Option<String> {
 /// Run `f`, mapping a Rust panic to `None`. The default panic hook is silenced once.
 pub fn catch<T>(f: impl FnOnce() -> T) -> Option<T> {
     silence_panics();
-    std::panic::catch_unwind(std::panic::AssertUnwindSafe(f)).ok()
+    QUIET.with(|q| q.set(q.get() + 1));
+    let r = std::panic::catch_unwind(std::panic::AssertUnwindSafe(f)).ok();
+    QUIET.with(|q| q.set(q.get() - 1));
+    r
 }
 
+thread_local! {
+    static QUIET: std::cell::Cell<u32> = std::cell::Cell::new(0);
+}
+
+/// Panics inside `catch` (expected: they are the implementation's error outcome) are not
+/// printed; a panic of the harness itself still is.
 pub fn silence_panics() {
     use std::sync::Once;
     static ONCE: Once = Once::new();
     ONCE.call_once(|| {
-        std::panic::set_hook(Box::new(|_| {}));
+        let default = std::panic::take_hook();
+        std::panic::set_hook(Box::new(move |info| {
+            if QUIET.with(|q| q.get()) == 0 {
+                default(info);
+            }
+        }));
     });
 }
 
@@ -157,5 +171,182 @@ pub fn join<T: std::fmt::Display>(xs: &[T]) -> String {
         "-".to_string()
     } else {
         xs.iter().map(|x| x.to_string()).collect::<Vec<_>>().join(",")
+    }
+}
+
+// ------------------------------------------------------------------------------------------
+// Soroban helpers
+// ------------------------------------------------------------------------------------------
+use soroban_sdk::{
+    testutils::{Address as _, Ledger as _, LedgerInfo, MockAuth, MockAuthInvoke},
+    xdr, Address, Env, IntoVal, Symbol, TryFromVal, Val, Vec as SVec,
+};
+
+/// Host ledger configuration used by every stateful harness run.
+pub fn new_env(sequence: u32, min_temp_ttl: u32, max_entry_ttl: u32) -> Env {
+    let e = Env::default();
+    set_ledger(&e, sequence, min_temp_ttl, max_entry_ttl);
+    e
+}
+
+pub fn set_ledger(e: &Env, sequence: u32, min_temp_ttl: u32, max_entry_ttl: u32) {
+    e.ledger().set(LedgerInfo {
+        timestamp: 1_700_000_000 + sequence as u64 * 5,
+        protocol_version: 25,
+        sequence_number: sequence,
+        network_id: [7u8; 32],
+        base_reserve: 10,
+        min_temp_entry_ttl: min_temp_ttl,
+        min_persistent_entry_ttl: max_entry_ttl.saturating_sub(1).max(1),
+        max_entry_ttl,
+    });
+}
+
+/// A small universe of addresses; index <-> Address.
+pub struct Universe {
+    pub addrs: std::vec::Vec<Address>,
+    sc: std::vec::Vec<xdr::ScAddress>,
+}
+
+impl Universe {
+    pub fn new(e: &Env, n: usize) -> Self {
+        let addrs: std::vec::Vec<Address> = (0..n).map(|_| Address::generate(e)).collect();
+        let sc = addrs.iter().map(sc_address).collect();
+        Universe { addrs, sc }
+    }
+    pub fn push(&mut self, a: Address) -> usize {
+        self.sc.push(sc_address(&a));
+        self.addrs.push(a);
+        self.addrs.len() - 1
+    }
+    pub fn a(&self, i: usize) -> &Address {
+        &self.addrs[i]
+    }
+    pub fn index_of_sc(&self, a: &xdr::ScAddress) -> Option<usize> {
+        self.sc.iter().position(|x| x == a)
+    }
+    pub fn index_of(&self, a: &Address) -> Option<usize> {
+        self.index_of_sc(&sc_address(a))
+    }
+    pub fn len(&self) -> usize {
+        self.addrs.len()
+    }
+}
+
+pub fn sc_address(a: &Address) -> xdr::ScAddress {
+    match xdr::ScVal::try_from(a).expect("address to scval") {
+        xdr::ScVal::Address(x) => x,
+        _ => unreachable!(),
+    }
+}
+
+/// Invoke `func` on `contract` with exactly the addresses in `signers` authorizing this
+/// top-level invocation (no sub-invocations). `None` = the invocation failed (any reason)
+/// and was rolled back by the host.
+pub fn call(e: &Env, contract: &Address, func: &str, args: SVec<Val>, signers: &[&Address]) -> Option<Val> {
+    let invoke = MockAuthInvoke { contract, fn_name: func, args: args.clone(), sub_invokes: &[] };
+    let mocks: std::vec::Vec<MockAuth> = signers.iter().map(|a| MockAuth { address: a, invoke: &invoke }).collect();
+    e.mock_auths(&mocks);
+    let r = catch(|| e.try_invoke_contract::<Val, soroban_sdk::Error>(contract, &Symbol::new(e, func), args));
+    match r {
+        Some(Ok(Ok(v))) => Some(v),
+        _ => None,
+    }
+}
+
+/// Same, with every `require_auth` satisfied (recording mode); use `demanded` afterwards.
+pub fn call_all_auth(e: &Env, contract: &Address, func: &str, args: SVec<Val>) -> Option<Val> {
+    e.mock_all_auths_allowing_non_root_auth();
+    let r = catch(|| e.try_invoke_contract::<Val, soroban_sdk::Error>(contract, &Symbol::new(e, func), args));
+    match r {
+        Some(Ok(Ok(v))) => Some(v),
+        _ => None,
+    }
+}
+
+/// Read-only call that must not fail for reasons of authorization.
+pub fn query<T: TryFromVal<Env, Val>>(e: &Env, contract: &Address, func: &str, args: SVec<Val>) -> Option<T> {
+    let v = call_all_auth(e, contract, func, args)?;
+    T::try_from_val(e, &v).ok()
+}
+
+/// Sorted, de-duplicated indices of the addresses whose authorization the last successful
+/// invocation demanded (`env.auths()`); addresses outside the universe are reported as 99.
+pub fn demanded(e: &Env, u: &Universe) -> std::vec::Vec<usize> {
+    let mut v: std::vec::Vec<usize> = e.auths().iter().map(|(a, _)| u.index_of(a).unwrap_or(99)).collect();
+    v.sort();
+    v.dedup();
+    v
+}
+
+pub fn args<const N: usize>(e: &Env, xs: [Val; N]) -> SVec<Val> {
+    SVec::from_array(e, xs)
+}
+
+pub fn v<T: IntoVal<Env, Val>>(e: &Env, x: T) -> Val {
+    x.into_val(e)
+}
+
+// ---- events ----------------------------------------------------------------------------
+
+#[derive(Debug, Clone)]
+pub struct Ev {
+    pub name: String,
+    pub topics: std::vec::Vec<xdr::ScVal>,
+    pub data: xdr::ScVal,
+    pub contract: Option<xdr::ScAddress>,
+}
+
+/// Events emitted by the last top-level invocation.
+pub fn last_events(e: &Env) -> std::vec::Vec<Ev> {
+    use soroban_sdk::testutils::Events as _;
+    let all = e.events().all();
+    all.events()
+        .iter()
+        .filter_map(|ce| {
+            let xdr::ContractEventBody::V0(b) = &ce.body;
+            let name = match b.topics.first() {
+                Some(xdr::ScVal::Symbol(s)) => s.to_utf8_string_lossy(),
+                _ => String::new(),
+            };
+            Some(Ev {
+                name,
+                topics: b.topics.iter().skip(1).cloned().collect(),
+                data: b.data.clone(),
+                contract: ce.contract_id.clone().map(|c| xdr::ScAddress::Contract(c)),
+            })
+        })
+        .collect()
+}
+
+pub fn sc_i128(v: &xdr::ScVal) -> Option<i128> {
+    match v {
+        xdr::ScVal::I128(p) => Some(((p.hi as i128) << 64) | p.lo as i128),
+        _ => None,
+    }
+}
+
+pub fn sc_u32(v: &xdr::ScVal) -> Option<u32> {
+    match v {
+        xdr::ScVal::U32(x) => Some(*x),
+        _ => None,
+    }
+}
+
+/// field of an event's data map (contractevent default data format) by name
+pub fn ev_field<'a>(data: &'a xdr::ScVal, name: &str) -> Option<&'a xdr::ScVal> {
+    match data {
+        xdr::ScVal::Map(Some(m)) => m.iter().find_map(|entry| match &entry.key {
+            xdr::ScVal::Symbol(s) if s.to_utf8_string_lossy() == name => Some(&entry.val),
+            _ => None,
+        }),
+        _ => None,
+    }
+}
+
+pub fn ev_addr(u: &Universe, v: Option<&xdr::ScVal>) -> String {
+    match v {
+        Some(xdr::ScVal::Address(a)) => u.index_of_sc(a).map(|i| i.to_string()).unwrap_or_else(|| "?".into()),
+        _ => "?".into(),
     }
 }
